@@ -9,7 +9,7 @@ import z3
 
 from .values import (Ref, Arr, Closure, BoundMethod, ModuleV, Opaque, Unsupported, PyRaise,
                      is_sym, is_conc, to_z3, fresh_scalar, fresh_arr, kind_of, is_int_like,
-                     is_real_like, is_bool_like, fresh_name)
+                     is_real_like, is_bool_like, fresh_name, z3sort)
 from .state import State, Outcome, Obligation
 
 DROPPED = {"print"}  # statements the extraction drops (DESIGN 1.1)
@@ -487,6 +487,14 @@ class Interp:
                                 rebound.add(x.id)
         return rebound, inplace, attrs
 
+    def appended_names(self, body):
+        out = set()
+        for n in ast.walk(ast.Module(body=list(body), type_ignores=[])):
+            if isinstance(n, ast.Call) and isinstance(n.func, ast.Attribute) and n.func.attr == "append" \
+                    and isinstance(n.func.value, ast.Name):
+                out.add(n.func.value.id)
+        return out
+
     def havoc_value(self, state, v, name, spec):
         shp = spec.shapes.get(name) if spec else None
         if isinstance(v, Ref) and v.kind == "arr":
@@ -515,6 +523,30 @@ class Interp:
                     state.set_arr(v, fresh_arr(state.arr(v).shape, state.arr(v).sort, nm))
                 else:
                     state.env[nm] = self.havoc_value(state, v, nm, spec)
+        for nm in sorted(self.appended_names(body)):
+            v = state.env.get(nm)
+            if isinstance(v, Ref) and v.kind == "list" and spec is not None and nm in spec.fresh:
+                # a list that grows inside the loop: at the loop head it is an arbitrary list (length and elements
+                # havocked, constrained by the invariant).  spec.fresh[nm] = ("list", "scalar", sort) |
+                # ("list", "array", sort, shape)
+                kd = spec.fresh[nm]
+                c = state.cell(v)
+                L = fresh_scalar("int", nm + "_len")
+                state.assume(L >= 0)
+                c["__list__"] = []
+                c["__symlen__"] = L
+                if kd[1] == "scalar":
+                    f = z3.Function(fresh_name(nm + "_elem"), z3.IntSort(), z3sort(kd[2]))
+                    c["__symelem__"] = lambda k, f=f: f(to_z3(k, "int"))
+                    c["__kind__"] = "scalar"
+                else:
+                    shape = tuple(kd[3])
+                    f = z3.Function(fresh_name(nm + "_elem"), *([z3.IntSort()] * (1 + len(shape))), z3sort(kd[2]))
+                    c["__symelem__"] = lambda k, f=f, shape=shape, srt=kd[2]: Arr(shape, lambda *r: f(to_z3(k, "int"), *[to_z3(x, "int") for x in r]), srt)
+                    c["__kind__"] = "array"
+                    c["__uniform_shape__"] = shape
+                c["__lens__"] = None
+                state.ghost["__havoc_lists__"] = set(state.ghost.get("__havoc_lists__", ())) | {v.oid}
         for nm in sorted(inplace - rebound):
             if nm in state.env and isinstance(state.env[nm], Ref) and state.env[nm].kind == "arr":
                 v = state.env[nm]
@@ -562,6 +594,8 @@ class Interp:
                 if k in old and old[k] is not v:
                     if k == "val":
                         continue   # array contents: covered through the owning variable/attribute below
+                    if oid in state.ghost.get("__havoc_lists__", ()) and k.startswith("__"):
+                        continue   # list grown by .append inside the loop: havocked at the head (spec.fresh)
                     if k in ("__list__", "__dict__"):
                         if oid in state.ghost.get("__havoc_dicts__", ()):
                             continue
